@@ -10,6 +10,31 @@ CHECKS = {
     technique="stateless exploration of the real simulation loop under a scheduler that owns every random draw (deviation-bounded DFS over answer sequences), each execution replayed against a reference CTMC",
     text="Every execution of solve_stochast (exact, fixed-tau and adaptive tau-leap) whose answers to the library's exponential/poisson draws deviate from the default in at most D places is enumerated for every event-only definition within k edits of the seed models; each execution must start at (x0,t0), have increasing times, natural counts (one per step in exact mode), dx = V*counts, equal the reference path computed from the same answers, and return for the right reason.",
     note="Trusted: sympy evaluation of the reference rates; numpy draws reach the library only via numpy.random.exponential/poisson (checked per execution). Bounds: populations <= 5, menus of 4 answers per draw, deviation bound 1 (quick) / 2 (thorough)."),
+ "C05": dict(
+    category="model_checking", design_ref="DESIGN.md §5 C05",
+    technique="explicit-state search of the jump chain through the real firstReaction (every reachable state x every ordering of the enabled clocks), generator matrix assembled from requested scales and observed successors, compared with closed-form laws; conformance replay of free-running seeded runs",
+    text="Kernel extraction instead of statistics: at every reachable state of linear chains and SIR (N<=4 quick, <=6 thorough, 2x2/3x3 rate grid, with and without explicit limits) the code must request one exponential per enabled event with scale 1/rate and fire the argmin; the implementation-induced generator then reproduces the multinomial occupancy law (expm) and the SIR final-size law to 1e-9. Real-seed runs are replayed through the reference from their recorded draws.",
+    note="Assumes numpy.random.exponential is an iid Exp(scale) source; the statistical acceptance test of the property text is replaced by an exact comparison of laws."),
+ "C10": dict(
+    category="model_checking", design_ref="DESIGN.md §5 C10",
+    technique="generator exploration of transition-only definitions (symbolic sum of the ODE), solver runs, and scheduler-driven exploration of simulations with the conservation invariant on every recorded state",
+    text="(a) all transition-only definitions within D edits of three seeds: sum(ode)==0 symbolically and numerically and ode equals the reference; (b) integrate/solve_determ/integrate2 row sums constant; (c) every explored execution of exact and tau-leap simulation and every step from every reachable state keeps the total exactly.",
+    note="sympy decides the symbolic identity; populations <= 5; deviation bound 1-2 (quick) / 2-3 (thorough)."),
+ "C11": dict(
+    category="model_checking", design_ref="DESIGN.md §5 C11",
+    technique="explicit-state search through the real step functions (every clock ordering / poisson answer vector from every reachable and every limit-boundary state) plus deviation-bounded exploration of whole simulations",
+    text="Definitions with absent, lower, upper, two-sided, (None,None) and very large limits, list/tuple/range declarations, constant-rate deaths, magnitudes up to 3, hybrid models with ODE terms: every recorded state inside its limits, every illegal proposal refused with state and time unchanged, path equal to the reference that refuses exactly the illegal proposals.",
+    note="Lower limit 0 assumed when none is declared; executions that leave the domain of non-negative rates (only when the user declared no lower limit) are not judged."),
+ "C15": dict(
+    category="model_checking", design_ref="DESIGN.md §5 C15",
+    technique="deviation-bounded exploration of solve_stochast with a time grid under the draw scheduler; expected rows and per-interval per-event counts computed from the reference path for the same answers",
+    text="Grids (uniform, fine with many empty intervals, late start, long tail past extinction, near-miss grid times a hair before/after event times, two points) x list/tuple/ndarray x exact/fixed/adaptive tau x initial states with and without enabled events: one row per time, first row x0, exact-mode rows are the path state at t_k, counts are per-event counts of (t_k,t_k+1], rows differ by V*counts.",
+    note="Event times never coincide with grid times (skipped and counted if they do); tau-leap rows are interpolated by design, only shape, first row and total counts are judged there."),
+ "C16": dict(
+    category="model_checking", design_ref="DESIGN.md §5 C16",
+    technique="scheduler-driven enumeration of draw schedules with routing audit (global generator untouched, no private generator), replay of each schedule on the same object, exhaustive answer sequences for random parameters, real-seed block",
+    text="Every explored schedule of serial solve_stochast goes only through numpy's global draw functions and a repeated call with the same answers on the same model returns identical output (two paths per call); random-parameter runs (frozen / (sampler,args) / (sampler,kwargs), 1-2 random parameters, 1-3 iterations, solve_determ and simulate_param): mean equals the mean of the returned runs exactly and each run is the solution for its drawn parameters; real seeds: same seed twice identical, different seeds pairwise different.",
+    note="numpy generators are deterministic functions of the seed; 'different seeds differ' enumerated over a block of 12 (quick) / 40 (thorough) seeds."),
 }
 NOT_YET = "check not built yet in this round (planned in DESIGN.md §5)"
 
